@@ -8,6 +8,7 @@ hash-relevant calls it makes, each with the text of its arguments:
   append         `.append_message(label, e)` / `.append_u64(..)` (merlin)
   finalize       `.finalize()` / `.finalize_xof()` / `.build_rng()` / `.rekey_with_witness_bytes(..)` / `.fill_bytes(..)`
   from_hash      `Scalar::from_hash(h)` / `X::from_hash(h)` / `hash_from_bytes::<D>(e)` / `from_bytes_mod_order_wide(e)`
+  digest_arg     `helper::<CtxDigest>(..)` / `raw_sign::<Sha512>(..)`: the digest type arguments of generic calls
   cond           `if let Some(c) = context` / `if`-guards in front of updates are listed as `cond` events with their condition
 
 What gets hashed, and in which order, IS the specification of Ed25519 (RFC 8032 5.1.5-5.1.7, dom2), of batch verification's
@@ -69,7 +70,29 @@ def events_of_fn(fs, fi):
         elif x in ('new', 'default') and is_p(prv, '::') and is_p(nxt, '(') and toks[i - 2][0] == 'id' and toks[i - 2][1] in DIGESTS:
             k = rslex.match_delim(toks, i + 1)
             ev.append((toks[i][2], 'new', toks[i - 2][1] + '::' + x + render(toks, i + 1, k)))
-    if not any(k in ('update', 'append') for _, k, _ in ev):
+    # digest type arguments handed down through turbofish calls (`recompute_R::<CtxDigest>(..)`, `raw_sign::<Sha512>(..)`): WHICH hash a
+    # generic helper is instantiated with is part of the specification as much as what it absorbs
+    for i in range(a + 1, b - 1):
+        if fs.owner[i] != fi.name or fs.attr[i]:
+            continue
+        if toks[i][0] == 'id' and is_p(toks[i + 1], '::') and is_p(toks[i + 2], '<') and toks[i][1] not in ('Digest', 'Output'):
+            j, d, args = i + 2, 0, []
+            while j < b:
+                if is_p(toks[j], '<'):
+                    d += 1
+                elif is_p(toks[j], '>'):
+                    d -= 1
+                    if d == 0:
+                        break
+                elif is_p(toks[j], '>>'):
+                    d -= 2
+                    if d <= 0:
+                        break
+                args.append(toks[j])
+                j += 1
+            if any(t[0] == 'id' and t[1] in DIGESTS for t in args) and j + 1 < b and is_p(toks[j + 1], '('):
+                ev.append((toks[i][2], 'digest_arg', toks[i][1] + render(toks, i + 1, j + 1)))
+    if not any(k in ('update', 'append', 'digest_arg') for _, k, _ in ev):
         return []
     # conditions guarding updates: `if`/`if let` whose block contains an update
     conds = []
